@@ -5,6 +5,7 @@
                     Function.set_outputs (declared outputs, ValueError)
      build/cfg.py   Block._wire_up_port (NotInSameCfg), Cfg.branch_exit (MismatchedExit)
      build/cond_loop.py  Conditional.add_case / _update_outputs / __exit__, If.add_else (ConditionalError)
+     __enter__/__exit__ of DfBase, Cfg, Conditional under Python's `with` statement (with_stmt, with_nest)
      ops.py         _CallOrLoad.__init__ (NoConcreteFunc), _check_complete (IncompleteOp)
      build/tracked_dfg.py  tracked_wire (IndexError, in model/Tracked.v)
    Types are an abstract set with decidable equality (Python's == on hugr.tys objects).  No proofs here. *)
@@ -97,6 +98,27 @@ Definition call_or_load (nparams : nat) (inst : bool) (ntargs : nat) : res unit 
 Definition dfg_call (k : pkind) (nparams : nat) (inst : bool) (ntargs : nat) : res unit :=
   rbind (fn_sig k) (fun _ => call_or_load nparams inst ntargs).
 
+(* ------------------------------------------------------------------ builders as context managers *)
+(* Python's `with cm: body`: cm.__exit__ is always called when the body is left.  With an exception in flight
+   it receives it, and the exception is SUPPRESSED iff __exit__ returns a true value; an exception raised by
+   __exit__ itself replaces the one in flight.  `inflight`: the exception with which the body ended (None: it
+   completed); `exit`: what __exit__ does (Err: raises; Ok b: returns b). *)
+Definition with_stmt (inflight : option eclass) (exit : res bool) : option eclass :=
+  match exit with
+  | Err e' => Some e'
+  | Ok suppress => match inflight with
+                   | None => None
+                   | Some e => if suppress then None else Some e
+                   end
+  end.
+(* DfBase.__exit__ (Dfg, Function, Case, If, Else, Block, TailLoop) and Cfg.__exit__: `return None` *)
+Definition plain_exit : res bool := Ok false.
+(* a call inside n nested `with` blocks of such builders *)
+Fixpoint with_plain (n : nat) (fl : option eclass) : option eclass :=
+  match n with O => fl | S k => with_stmt (with_plain k fl) plain_exit end.
+(* the context managers around a call: a builder whose __exit__ has nothing to check / the Conditional *)
+Inductive ctxk := CxPlain | CxCond.
+
 Section Rows.
   Variable T : Type.
   Variable teqb : T -> T -> bool.
@@ -153,6 +175,38 @@ Section Rows.
                 end
     end.
 
+  (* the body of a `with` block: the calls in sequence, NOT caught; the first exception ends the body.
+     Result: the state when the body was left and the exception in flight *)
+  Fixpoint cond_body (c : cond) (os : list cond_op) : cond * option eclass :=
+    match os with
+    | [] => (c, None)
+    | o :: r => match cond_step c o with
+                | Ok c' => cond_body c' r
+                | Err e => (c, Some e)
+                end
+    end.
+  (* Conditional.__exit__: raises when a case is unbuilt, else `return None` whatever is in flight *)
+  Definition cond_ctx_exit (c : cond) : res bool :=
+    match cond_exit c with Ok _ => Ok false | Err e => Err e end.
+  Definition ctx_exit (c : cond) (k : ctxk) : res bool :=
+    match k with CxPlain => plain_exit | CxCond => cond_ctx_exit c end.
+  (* `with k1: with k2: ... body` (contexts outermost first; their exits run innermost first and do not
+     change the conditional) *)
+  Fixpoint with_nest (c : cond) (ctxs : list ctxk) (body : list cond_op) : cond * option eclass :=
+    match ctxs with
+    | [] => cond_body c body
+    | k :: r => let '(c', fl) := with_nest c r body in (c', with_stmt fl (ctx_exit c' k))
+    end.
+  (* a statement of a session: a body inside zero or more contexts; the caller catches what leaves it *)
+  Record cond_stmt := mkStmt { s_ctx : list ctxk; s_body : list cond_op }.
+  Definition plain_stmt (o : cond_op) : cond_stmt := mkStmt [] [o].
+  Fixpoint stmt_run (c : cond) (ss : list cond_stmt) : list (option eclass) * cond :=
+    match ss with
+    | [] => ([], c)
+    | s :: r => let '(c', fl) := with_nest c (s_ctx s) (s_body s) in
+                let '(l, fin) := stmt_run c' r in (fl :: l, fin)
+    end.
+
   (* ---------------------------------------------------------------- Cfg.branch_exit *)
   Definition branch_exit (exit : option row) (out : row) : res (option row) :=
     match exit with
@@ -190,6 +244,7 @@ End Rows.
 
 Arguments mkCond {T}. Arguments c_built {T}. Arguments c_outs {T}.
 Arguments OAddCase {T}. Arguments OSetOutputs {T}. Arguments OExit {T}.
+Arguments mkStmt {T}. Arguments s_ctx {T}. Arguments s_body {T}. Arguments plain_stmt {T}.
 
 (* ------------------------------------------------------------------ integers as wires *)
 (* plain builders (Dfg.add, model/Tracked.v dfg_add): ValueError; tracked builder: IndexError *)
